@@ -75,6 +75,49 @@ Fixpoint store (root : val) (ref : list hop) (new : val) : val :=
 (* protect_via_deepcopy: immutable values are returned as they are *)
 Definition protect (v : val) : out := if is_mutable v then OFresh v else OVal v.
 
+(* ---- transforms handed to the copy-on-write helpers of a spec class -------
+   (transform_<a>(g)).  A pure function on trees describes what the callable
+   RETURNS; that some of them also write into their argument is invisible here
+   and must be invisible in the implementation as well, because the helper hands
+   them a protected copy: the harness's callables do mutate (HPush, HPushOne). *)
+Inductive hfn :=
+| HId          (* lambda v: v *)
+| HPush        (* v["l"] = 99 / v.c = 99 in place; return v *)
+| HPushOne     (* the same write; return 1 *)
+| HWrap        (* lambda v: {"k": v} *)
+| HInc         (* lambda v: v + 1 *)
+| HSeven.      (* lambda v: 7 *)
+Definition apply_hfn (g : hfn) (v : val) : res val :=
+  match g, v with
+  | HId, _ => Ok v
+  | HPush, VDict d => Ok (VDict (d_set 1 (VInt 99) d))
+  | HPush, VInst d => Ok (VInst (d_set 3 (VInt 99) d))
+  | HPushOne, VDict _ | HPushOne, VInst _ => Ok (VInt 1)
+  | HWrap, _ => Ok (VDict [(0, v)])
+  | HInc, VInt z => Ok (VInt (z + 1))
+  | HSeven, _ => Ok (VInt 7)
+  | _, _ => Err TypeErr
+  end.
+(* The value update_<a>(MISSING) / transform_<a>(g) start from, given what
+   getattr(o, a) did (scalar.py:_current_value + mutation.py:mutate_value):
+   AttributeError -> MISSING -> the annotation is called (int() = 0; Any()
+   raises TypeError); a dict under an `int` annotation is read as constructor
+   arguments (an empty dict gives int() = 0, otherwise TypeError); other errors propagate. *)
+Definition start_value (is_int_typed : bool) (rd : res out) : res val :=
+  match rd with
+  | Ok (OVal v) | Ok (OFresh v) =>
+      if is_int_typed then
+        match v with
+        | VDict [] => Ok (VInt 0)
+        | VDict _ => Err TypeErr
+        | _ => Ok v
+        end
+      else Ok v
+  | Ok _ => Err TypeErr
+  | Err AttrErr => if is_int_typed then Ok (VInt 0) else Err TypeErr
+  | Err e => Err e
+  end.
+
 Section Model.
   Context {fn : Type}.
   Variable apply_fn : fn -> val -> res val.   (* the transform pool *)
@@ -298,7 +341,15 @@ Section Model.
   | XOn (i : nat) (o : op)          (* an operation of the property on instance i *)
   | XDeepCopy (i : nat)             (* copy.deepcopy(o_i): the copy becomes the next instance *)
   | XWithAlias (i : nat) (x : val)  (* o_i.with_y(x)   (spec classes) *)
-  | XWithTarget (i : nat) (x : val). (* o_i.with_a(x)   (spec classes, path = [a]) *)
+  | XWithTarget (i : nat) (x : val) (* o_i.with_a(x)   (spec classes, path = [a]) *)
+  (* the other copy-on-write scalar helpers of a spec class, on the alias and
+     on the target attribute (path = [a]) *)
+  | XTransformAlias (i : nat) (g : hfn)         (* o_i.transform_y(g) *)
+  | XUpdateAlias (i : nat) (x : option val)     (* o_i.update_y(x); None = MISSING *)
+  | XResetAlias (i : nat)                       (* o_i.reset_y() *)
+  | XTransformTarget (i : nat) (g : hfn)        (* o_i.transform_a(g) *)
+  | XUpdateTarget (i : nat) (x : option val)    (* o_i.update_a(x) *)
+  | XResetTarget (i : nat).                     (* o_i.reset_a() *)
 
   Definition xst := (list val * Z)%type.
 
@@ -307,6 +358,33 @@ Section Model.
     | O, _ :: t => x :: t
     | S n', y :: t => y :: set_nth n' x t
     | _, [] => []
+    end.
+
+  (* with_y(x) on instance r, warnings so far w: WithAttrMethod ->
+     mutate_attr(inplace=False): type check, deepcopy, raw setattr on the
+     copy, i.e. __set__ *)
+  Definition with_alias (s : xst) (r : val) (w : Z) (x : val) : res out * xst :=
+    if conforms h (c_name c) x then
+      let '(res, (r', w')) := d_set_ (r, w) x in
+      match res with
+      | Ok _ => (Ok ONone, (fst s ++ [r'], w'))
+      | Err e => (Err e, (fst s, w'))
+      end
+    else (Err TypeErr, (fst s, w)).
+  Definition with_target (s : xst) (r : val) (a : name) (x : val) : res out * xst :=
+    match py_setattr h r a x with
+    | Ok r' => (Ok ONone, (fst s ++ [r'], snd s))
+    | Err e => (Err e, s)
+    end.
+  (* transform_<n>(g) = with_<n>(g(value the helper starts from)); [rd] is
+     what getattr(o, n) did *)
+  Definition transform_then {A} (n : name) (rd : res out) (g : hfn) (fail : err -> A) (k : val -> A) : A :=
+    match start_value (typed h n) rd with
+    | Err e => fail e
+    | Ok v0 => match apply_hfn g v0 with
+               | Err e => fail e
+               | Ok v1 => k v1
+               end
     end.
 
   Definition xstep (s : xst) (o : xop) : res out * xst :=
@@ -344,6 +422,73 @@ Section Model.
         | Some r, [SAttr a] =>
             if negb (h_spec h) then (Err AttrErr, s)
             else match py_setattr h r a x with
+                 | Ok r' => (Ok ONone, (fst s ++ [r'], snd s))
+                 | Err e => (Err e, s)
+                 end
+        | _, _ => (Err IndexErr, s)
+        end
+    | XTransformAlias i g =>
+        (* TransformAttrMethod: getattr(o, y, MISSING) (the host's attribute
+           read, twice on AttributeError), protect_via_deepcopy, g, with_y *)
+        match nth_error (fst s) i with
+        | None => (Err IndexErr, s)
+        | Some r =>
+            if negb (h_spec h) then (Err AttrErr, s)
+            else let '(rd, (_, w1)) := host_get (r, snd s) in
+                 transform_then (c_name c) rd g
+                   (fun e => (Err e, (fst s, w1)))
+                   (fun v1 => with_alias s r w1 v1)
+        end
+    | XUpdateAlias i x =>
+        (* UpdateAttrMethod: a value replaces the old one unread (= with_y);
+           MISSING keeps (a protected copy of) the current value *)
+        match nth_error (fst s) i with
+        | None => (Err IndexErr, s)
+        | Some r =>
+            if negb (h_spec h) then (Err AttrErr, s)
+            else match x with
+                 | Some v => with_alias s r (snd s) v
+                 | None =>
+                     let '(rd, (_, w1)) := host_get (r, snd s) in
+                     transform_then (c_name c) rd HId
+                       (fun e => (Err e, (fst s, w1)))
+                       (fun v1 => with_alias s r w1 v1)
+                 end
+        end
+    | XResetAlias i =>
+        (* ResetAttrMethod: deepcopy, delattr(copy, y) *)
+        match nth_error (fst s) i with
+        | None => (Err IndexErr, s)
+        | Some r =>
+            if negb (h_spec h) then (Err AttrErr, s)
+            else let '(res, (r', w')) := host_delete (r, snd s) in
+                 match res with
+                 | Ok _ => (Ok ONone, (fst s ++ [r'], w'))
+                 | Err e => (Err e, (fst s, w'))
+                 end
+        end
+    | XTransformTarget i g =>
+        match nth_error (fst s) i, c_path c with
+        | Some r, [SAttr a] =>
+            if negb (h_spec h) then (Err AttrErr, s)
+            else transform_then a (target_get r) g (fun e => (Err e, s)) (fun v1 => with_target s r a v1)
+        | _, _ => (Err IndexErr, s)
+        end
+    | XUpdateTarget i x =>
+        match nth_error (fst s) i, c_path c with
+        | Some r, [SAttr a] =>
+            if negb (h_spec h) then (Err AttrErr, s)
+            else match x with
+                 | Some v => with_target s r a v
+                 | None => transform_then a (target_get r) HId (fun e => (Err e, s)) (fun v1 => with_target s r a v1)
+                 end
+        | _, _ => (Err IndexErr, s)
+        end
+    | XResetTarget i =>
+        match nth_error (fst s) i, c_path c with
+        | Some r, [SAttr a] =>
+            if negb (h_spec h) then (Err AttrErr, s)
+            else match target_delete r with
                  | Ok r' => (Ok ONone, (fst s ++ [r'], snd s))
                  | Err e => (Err e, s)
                  end
